@@ -58,6 +58,9 @@ func checkC06(c *Ctx) {
 		}
 	}
 
+	// the commit order that execution follows (C01.2-C01.5)
+	c.importFrom(checkC01, "C06.8", "C01.2", "C01.3", "C01.4", "C01.5")
+
 	exec := p.Method("server", "ClientIO", "Exec")
 	abort := p.Method("server", "ClientIO", "Abort")
 	cc := p.Method("server", "ClientIO", "completeCommand")
